@@ -5,11 +5,13 @@
     A heuristic is any function of the search state; [admissible] is the property's condition
     "always proposes an undecided statement with a truth value".  The random heuristic reads an explicit
     draw stream (one RNG output per entry), so "every seed" is "every stream"; [g_rand_filtered] is what
-    the source does with a draw (Gen/TieFlagRand.v, regenerated from lib/src/adf/heuristics.rs).
+    the source does with a draw (Gen/TieFlagRand.v, regenerated from lib/src/adf/heuristics.rs);
+    [sx] tells whether the loop ends as soon as a backtrack finds no choice entry on the stack
+    ([g_ng_stop_exhausted], Gen/TieFlagExhaust.v, regenerated from lib/src/adf.rs).
     The channel variants run the same loop and hand over the same list (their sender is dropped when
     the function returns: checked on the implementation by the correspondence harness). *)
 From Coq Require Import NArith List Bool.
-From ADF Require Import Spec.Spec Gen.GenFlags Gen.TieFlagRand Bdd.Store Bdd.WF Bdd.Node Adf.Native Adf.NativeBase Adf.NoGood Adf.Search Adf.NgSearchProofs.
+From ADF Require Import Spec.Spec Gen.GenFlags Gen.TieFlagRand Gen.TieFlagExhaust Bdd.Store Bdd.WF Bdd.Node Adf.Native Adf.NativeBase Adf.NoGood Adf.Search Adf.NgSearchProofs.
 Import ListNotations.
 Local Open Scope N_scope.
 
@@ -35,8 +37,8 @@ Proof. exact rand_unfiltered_not_admissible. Qed.
 Print Assumptions C05_rand_over_all_statements_not_admissible.
 
 (** soundness, for every heuristic whatsoever *)
-Theorem C05_sound : forall c ac h rf two budget st draws st' l rest,
-  WF c st -> ac_ok st ac -> nogood_search c ac h rf two budget st draws = Some (st', l, rest) ->
+Theorem C05_sound : forall c ac h rf two sx budget st draws st' l rest,
+  WF c st -> ac_ok st ac -> nogood_search c ac h rf two sx budget st draws = Some (st', l, rest) ->
   WF c st' /\ extends st st' /\
   forall v, In v l ->
     length v = length ac /\ Forall (fun x => is_tv x = true) v /\
@@ -45,53 +47,75 @@ Proof. exact ng_sound. Qed.
 Print Assumptions C05_sound.
 
 (** the two stacks stay in lock-step: no reachable state makes a step panic *)
-Theorem C05_stacks_synchronous : forall c ac h rf two st draws s1 g st' s',
+Theorem C05_stacks_synchronous : forall c ac h rf two sx st draws s1 g st' s',
   WF c st -> ac_ok st ac -> grounded c st ac = Some (s1, g) ->
-  ng_reach c ac h rf two s1 (ng_init ac g draws) st' s' ->
-  ng_step c ac h rf two st' s' <> Some Panic /\
+  ng_reach c ac h rf two sx s1 (ng_init ac g draws) st' s' ->
+  ng_step c ac h rf two sx st' s' <> Some Panic /\
   length (filter fst (g_stack s')) = length (g_hist s') /\
   Forall (fun f => (ng_len (snd f) <= length (buckets (g_store s')))%nat) (g_stack s').
 Proof. exact ng_no_panic. Qed.
 Print Assumptions C05_stacks_synchronous.
 
 (** exactly the models, each once, for every admissible heuristic and every search history *)
-Theorem C05_exact : forall c ac h rf two budget st draws st' l rest,
+Theorem C05_exact : forall c ac h rf two sx budget st draws st' l rest,
   admissible c h rf -> WF c st -> ac_ok st ac ->
-  nogood_search c ac h rf two budget st draws = Some (st', l, rest) ->
+  nogood_search c ac h rf two sx budget st draws = Some (st', l, rest) ->
   NoDup (map interp_of l) /\
   forall v, In v (map interp_of l) <-> (if two then Model2 (abs st ac) v else Stable (abs st ac) v).
 Proof. exact ng_exact. Qed.
 Print Assumptions C05_exact.
 
-(** termination within an explicit number of loop rounds, for every framework with a statement *)
+(** termination within an explicit number of loop rounds: for every framework with the loop as the source
+    has it, for every framework with a statement in either variant *)
 Theorem C05_terminates : forall c ac h rf two budget st draws,
+  admissible c h rf -> WF c st -> ac_ok st ac ->
+  (ng_bound (length ac) <= budget)%nat ->
+  (h = HRand -> (2 * ng_bound (length ac) <= length draws)%nat) ->
+  nogood_search c ac h rf two true budget st draws <> None.
+Proof. exact ng_terminates_repaired. Qed.
+Print Assumptions C05_terminates.
+Theorem C05_terminates_with_a_statement : forall c ac h rf two sx budget st draws,
   admissible c h rf -> ac <> [] -> WF c st -> ac_ok st ac ->
   (ng_bound (length ac) <= budget)%nat ->
   (h = HRand -> (2 * ng_bound (length ac) <= length draws)%nat) ->
-  nogood_search c ac h rf two budget st draws <> None.
+  nogood_search c ac h rf two sx budget st draws <> None.
 Proof. exact ng_terminates. Qed.
-Print Assumptions C05_terminates.
+Print Assumptions C05_terminates_with_a_statement.
 
 (** ... for the search as the source has it, with every built-in heuristic *)
+Theorem C05_source_stops_when_choices_are_exhausted : g_ng_stop_exhausted = true.
+Proof. exact ng_loop_stops_when_exhausted. Qed.
+Print Assumptions C05_source_stops_when_choices_are_exhausted.
 Theorem C05_source_terminates_and_is_exact : forall c ac h two budget st draws,
-  ac <> [] -> WF c st -> ac_ok st ac ->
+  WF c st -> ac_ok st ac ->
   (ng_bound (length ac) <= budget)%nat ->
   (h = HRand -> (2 * ng_bound (length ac) <= length draws)%nat) ->
   exists st' l rest, nogood_search_cur c ac h two budget st draws = Some (st', l, rest) /\
-    NoDup (map interp_of l) /\
+    WF c st' /\ extends st st' /\ NoDup (map interp_of l) /\
     forall v, In v (map interp_of l) <-> (if two then Model2 (abs st ac) v else Stable (abs st ac) v).
 Proof.
-  intros c ac h two budget st draws NE W A B D. unfold nogood_search_cur. rewrite rand_proposes_undecided.
-  assert (ADM : admissible c h true) by (apply builtin_admissible; reflexivity).
-  destruct (nogood_search c ac h true two budget st draws) as [[[st' l] rest]|] eqn:E.
-  - exists st', l, rest. split; [reflexivity|]. exact (ng_exact c ac h true two budget st draws st' l rest ADM W A E).
-  - exfalso. exact (ng_terminates c ac h true two budget st draws ADM NE W A B D E).
+  intros c ac h two budget st draws W A B D. unfold nogood_search_cur.
+  rewrite rand_proposes_undecided, ng_loop_stops_when_exhausted.
+  apply ng_correct_repaired; try assumption. apply builtin_admissible; reflexivity.
 Qed.
 Print Assumptions C05_source_terminates_and_is_exact.
 
-(** the framework without statements: the loop sends the empty interpretation in every round and never
-    ends (known finding ng:empty-adf-diverges); the side condition above cannot be dropped *)
-Theorem C05_empty_framework_diverges : forall c h rf two budget st draws,
-  nogood_search c [] h rf two budget st draws = None.
+(** the defect repaired in /repo was real: without that exit the framework without statements is searched
+    for ever (the empty interpretation is sent in every round), so the side condition of
+    C05_terminates_with_a_statement cannot be dropped for the old loop; with it the answer is the one model *)
+Theorem C05_empty_framework_diverged : forall c h rf two budget st draws,
+  nogood_search c [] h rf two false budget st draws = None.
 Proof. exact ng_empty_adf_diverges. Qed.
-Print Assumptions C05_empty_framework_diverges.
+Print Assumptions C05_empty_framework_diverged.
+Theorem C05_empty_framework : forall c h rf two budget st draws,
+  (2 <= budget)%nat -> nogood_search c [] h rf two true budget st draws = Some (st, [[]], draws).
+Proof. exact ng_empty_adf_repaired. Qed.
+Print Assumptions C05_empty_framework.
+(** the repair changes nothing else: both loops find the same models *)
+Theorem C05_repair_same_models : forall c ac two h1 rf1 b1 d1 h2 rf2 b2 d2 st s1 l1 r1 s2 l2 r2,
+  admissible c h1 rf1 -> admissible c h2 rf2 -> WF c st -> ac_ok st ac ->
+  nogood_search c ac h1 rf1 two false b1 st d1 = Some (s1, l1, r1) ->
+  nogood_search c ac h2 rf2 two true b2 st d2 = Some (s2, l2, r2) ->
+  forall v, In v (map interp_of l1) <-> In v (map interp_of l2).
+Proof. exact ng_repair_same_models. Qed.
+Print Assumptions C05_repair_same_models.
